@@ -705,7 +705,10 @@ class ApplicationStartJobs(ApplicationJobs):
             self.logger.trace('ApplicationStartJobs.on_command_added: searching a Supvisors instance among'
                               f' {self.identifiers} to start {command.process.namespec} with load={load}'
                               f' / load_request_map={load_request_map}')
-            identifier = get_supvisors_instance(self.supvisors, self.starting_strategy, self.identifiers,
+            # among the chosen Supvisors instances, only those knowing the program are eligible
+            candidates = [identifier for identifier in self.identifiers
+                          if identifier in command.process.info_map and not command.process.disabled_on(identifier)]
+            identifier = get_supvisors_instance(self.supvisors, self.starting_strategy, candidates,
                                                 load, load_request_map)
             if identifier:
                 self.logger.debug(f'ApplicationStartJobs.on_command_added: {command.process.namespec} is planned to'
@@ -757,12 +760,18 @@ class ApplicationStartJobs(ApplicationJobs):
                               f' with load_request_map={load_request_map}')
             # for all commands, select an identifier from the chosen node
             for command in commands:
-                process_load = command.process.rules.expected_load
+                process = command.process
+                process_load = process.rules.expected_load
+                # among the Supvisors instances of the node, only those knowing the program are eligible
+                candidates = [identifier for identifier in self.identifiers
+                              if identifier in process.info_map and not process.disabled_on(identifier)]
                 identifier = get_supvisors_instance(self.supvisors, self.starting_strategy,
-                                                    self.identifiers, process_load, load_request_map)
-                self.logger.debug(f'ApplicationStartJobs.distribute_to_single_node: {command.process.namespec}'
+                                                    candidates, process_load, load_request_map)
+                self.logger.debug(f'ApplicationStartJobs.distribute_to_single_node: {process.namespec}'
                                   f' is planned to start on Supvisors={identifier}')
-                command.update_identifier(identifier)
+                # without identifier, the command will end with 'No resource available' when processed
+                if identifier:
+                    command.update_identifier(identifier)
         else:
             self.logger.debug('ApplicationStartJobs.distribute_to_single_node: no Supvisors instance found to plan'
                               f' the starting of {self.application_name} with load={application_load}')
